@@ -29,7 +29,7 @@ man = {
  'version': 1,
  'setup_cmd': './setup.sh',
  'hooks': {'guard': 'XERCES_VERIF_HOOKS',
-           'enable': 'checks lower /repo sources with clang++-14 -DXERCES_VERIF_HOOKS=1 (reader harnesses add -DXERCES_VERIF_CHARBUF=<n> -DXERCES_VERIF_RAWBUF=<n>); the library build used by the test suite never defines the guard',
+           'enable': 'checks lower /repo sources with clang++-14 -DXERCES_VERIF_HOOKS=1 (reader harnesses add -DXERCES_VERIF_CHARBUF=<n> -DXERCES_VERIF_RAWBUF=<n>, the formatter harness -DXERCES_VERIF_TMPBUF=<n>); the library build used by the test suite never defines the guard',
            'baseline_off_cmd': 'cmake --build /repo/_build -j16 && ctest --test-dir /repo/_build -j8 --timeout 900',
            'source_commits': [h.split()[0] for h in hooks if h], 'add_only': True},
  'engines': [{'name': 'vcheck', 'path': '/verif/vcheck', 'serves_properties': served,
